@@ -17,12 +17,13 @@
 (***************************************************************************)
 EXTENDS Integers, Sequences, FiniteSets, TLC
 
-CONSTANTS NULL, UNDEF
+CONSTANTS NULL, UNDEF, ANY     \* ANY: some non-null value the specification does not compute (transcendental functions): the two back ends are compared with each other
 
 Bound == 1000000
 
 IsN(v) == v = NULL
 IsU(v) == v = UNDEF
+IsAny(v) == v = ANY
 
 AbsI(a) == IF a < 0 THEN -a ELSE a
 SgnI(a) == IF a < 0 THEN -1 ELSE IF a = 0 THEN 0 ELSE 1
@@ -76,6 +77,8 @@ RatDivV(a, b) == IF IsU(a) \/ IsU(b) THEN UNDEF ELSE IF IsN(a) \/ IsN(b) THEN NU
                  ELSE IF b.n = 0 THEN UNDEF
                  ELSE IF AbsI(a.n) > 1000 \/ AbsI(b.n) > 1000 \/ a.d > 100 \/ b.d > 100 THEN UNDEF
                  ELSE Rat(a.n * b.d, a.d * b.n)
+RECURSIVE RatPow(_, _)
+RatPow(a, k) == IF k = 0 THEN RatOfInt(1) ELSE RatMulV(a, RatPow(a, k - 1))
 RatLt(a, b) == a.n * b.d < b.n * a.d
 RatEq(a, b) == a.n = b.n /\ a.d = b.d
 (* Int / Int -> Float *)
